@@ -10,6 +10,7 @@ package main
 
 import (
 	"context"
+	"runtime/debug"
 	"errors"
 	"fmt"
 	"hash/fnv"
@@ -734,6 +735,14 @@ func (w *world) runProtected() (progressed bool) {
 			if cs, ok := r.(crashSentinel); ok {
 				w.crash(cs.where)
 				progressed = true
+				return
+			}
+			if _, ok := r.(choice.ErrBudget); ok {
+				panic(r)
+			}
+			if mlb, where := runner.PanicOrigin(string(debug.Stack())); mlb {
+				w.violate(firstProp(w.env), "panic-in-metallb", "", fmt.Sprintf("MetalLB code panicked: %v (at %s)", r, where))
+				progressed = false
 				return
 			}
 			panic(r)
